@@ -121,6 +121,18 @@ def build(spec):
     return g
 
 
+_CALLS = [0]
+
+
+def _call_optimize(g, kw):
+    """Call the real optimize() with keywords or - every other time, when all four documented parameters are given - positionally in the
+    documented order (tol, max_iter, fix_first_pose, verbose): both are the public interface."""
+    _CALLS[0] += 1
+    if _CALLS[0] % 2 and set(kw) == {"tol", "max_iter", "fix_first_pose", "verbose"}:
+        return g.optimize(kw["tol"], kw["max_iter"], kw["fix_first_pose"], kw["verbose"])
+    return g.optimize(**kw)
+
+
 def quiet_optimize(g, **kw):
     kw.setdefault("verbose", False)
     with warnings.catch_warnings():
@@ -129,9 +141,9 @@ def quiet_optimize(g, **kw):
             if kw["verbose"]:
                 buf = io.StringIO()
                 with contextlib.redirect_stdout(buf):
-                    r = g.optimize(**kw)
+                    r = _call_optimize(g, kw)
                 return r, buf.getvalue()
-            return g.optimize(**kw)
+            return _call_optimize(g, kw)
 
 
 def snapshot_poses(g):
@@ -213,10 +225,37 @@ def angle_rows(e):
     return list(getattr(e, "angle_rows", []))
 
 
+CONVENTION = ["real"]  # "real": follow the implementation's sign choice; "canonical": w >= 0 for built-in odometry edges
+
+
+def aligned_sigma(e, ref_err):
+    """Sign relation between the implementation's rotational error and the Hamilton one of the reference (both q and -q are legitimate
+    representatives; the value of e^T Omega e depends on the choice when Omega couples translation and rotation)."""
+    if not rot_rows(e):
+        return np.ones(len(ref_err))
+    if CONVENTION[0] == "canonical" and isinstance(e, EdgeOdometry):
+        # the physical convention: the representative of the error rotation with non-negative scalar part (a function of the rotation itself,
+        # not of which of q / -q the client happened to store)
+        full = R.odo_err_full("se3", fl(e.vertices[0].pose), fl(e.vertices[1].pose), fl(e.estimate))
+        sg = np.ones(len(ref_err))
+        if R.val(full[6]) < 0:
+            sg[rot_rows(e)] = -1.0
+        return sg
+    with np.errstate(all="ignore"):
+        try:
+            real = np.atleast_1d(np.asarray(e.calc_error(), dtype=float))
+        except Exception:
+            return np.ones(len(ref_err))
+    if real.shape != np.shape(ref_err):
+        return np.ones(len(ref_err))
+    return sigma_vector(e, real, ref_err)
+
+
 def ref_graph_chi2(g):
     tot = 0.0
     for e in g._edges:
         er = edge_ref_error(e)
+        er = er * aligned_sigma(e, er)
         Om = np.asarray(e.information, dtype=float)
         tot += float(er @ Om @ er)
     return tot
@@ -241,6 +280,9 @@ def free_mask(g, n, idx, fixed_ids=None):
     return free
 
 
+LAST_ABS = {}
+
+
 def assemble(g, source="ref"):
     """Dense H, b, chi2 for the live graph.
 
@@ -250,11 +292,16 @@ def assemble(g, source="ref"):
     idx, n = index_map(g)
     H = np.zeros((n, n))
     b = np.zeros(n)
+    babs = np.zeros(n)
     chi = 0.0
     for e in g._edges:
         Om = np.asarray(e.information, dtype=float)
         if source == "ref":
             er, Js = edge_ref_jacobians(e)
+            sg = aligned_sigma(e, er)
+            if np.any(sg < 0):
+                er = er * sg
+                Js = [J * sg[:, None] for J in Js]
         else:
             er = np.atleast_1d(np.asarray(e.calc_error(), dtype=float))
             Js = [np.asarray(J, dtype=float).reshape(len(er), -1) for J in e.calc_jacobians()]
@@ -263,9 +310,11 @@ def assemble(g, source="ref"):
             ia = idx[id(va)]
             ca = Ja.shape[1]
             b[ia:ia + ca] += Ja.T @ Om @ er
+            babs[ia:ia + ca] += np.abs(Ja.T) @ np.abs(Om) @ np.abs(er)
             for vb, Jb in zip(e.vertices, Js):
                 ib = idx[id(vb)]
                 H[ia:ia + ca, ib:ib + Jb.shape[1]] += Ja.T @ Om @ Jb
+    LAST_ABS["babs"] = babs  # sum of absolute contributions per gradient entry (rounding bound for the accumulated gradient)
     return H, b, chi, idx, n
 
 
